@@ -44,6 +44,25 @@ theorem absent_field (f : Field) (fs : List Field) (ss : FState) :
           (match finishFields fs ss with | .error e => .error e | .ok rest => .ok (.nil :: rest)) :=
   finishFields_absent f fs ss
 
+/-- Decoding a struct fails if and only if a nested value fails, or a required field without
+default was not received with its declared wire type, or the union arity rule is violated. -/
+theorem fails_iff (env : Env) (fuel : Nat) (n : String) (sd : StructDef)
+    (hsd : env.find n = some sd) (wfs : List (UInt16 × WValue)) :
+    (∃ e, fromWire env (fuel + 1) (.struct n) (.struct wfs) = .error e) ↔
+      (∃ e, fromWireFields (fromWire env fuel) sd.fields wfs (initState sd.fields) = .error e) ∨
+      (∃ st, fromWireFields (fromWire env fuel) sd.fields wfs (initState sd.fields) = .ok st ∧
+        ((∃ e, finishFields sd.fields st = .error e) ∨
+         (∃ gs, finishFields sd.fields st = .ok gs ∧ arityOkS sd (countSet gs) = false))) :=
+  fromWire_struct_fails_iff env fuel n sd hsd wfs
+
+/-- … where the post-loop pass fails exactly when some required field without default was never
+set (a field is set only by a wire field with the same id AND the declared wire type). -/
+theorem required_missing_iff (fields : List Field) (st : FState) (hl : st.length = fields.length) :
+    (∃ e, finishFields fields st = .error e) ↔
+      ∃ (i : Nat) (f : Field) (s : GVal × Bool), fields[i]? = some f ∧ st[i]? = some s ∧
+        f.dflt = none ∧ f.req = true ∧ s.2 = false :=
+  finishFields_error_iff fields st hl
+
 /-- Non-vacuity: id 9 is foreign to S; id 1 with a string value is foreign (retyped) too. -/
 example : Foreign [⟨1, "A", "a", true, false, false, none, .i32⟩] 9 (.bool true) ∧
     Foreign [⟨1, "A", "a", true, false, false, none, .i32⟩] 1 (.binary [65]) := by
